@@ -27,7 +27,7 @@ def rule_exact(ctx):
     ctx.minimum('R11.1', n, 1)
 
 
-def rule_tables(ctx):
+def rule_tables(ctx, rule='R11.2'):
     mod = ctx.prog.modules.get('mchap.jitutils')
     ctx.need(mod is not None, "anchor vanished: mchap.jitutils")
     for fn, table, slow in (('comb', '_COMB_CACHE', '_comb'), ('comb_with_replacement', '_COMB_WITH_REPLACEMENT_CACHE', '_comb_with_replacement')):
@@ -47,7 +47,7 @@ def rule_tables(ctx):
             neg = {'GtE': 'Lt', 'LtE': 'Gt', 'Gt': 'LtE', 'Lt': 'GtE'}
             got = {(mkcmp(neg[c[1]], c[2], c[3]), True) if (not pol and c[0] == 'cmp' and c[1] in neg) else (c, pol) for c, pol in atoms(path(fast[0]))}
             cond_ok = got == want
-        ctx.check(ok and cond_ok, 'R11.2/table-guard', f.construct(table), f"{table}[n, k] read only if n < shape[0] and k < shape[1]; otherwise {slow}(n, k)",
+        ctx.check(ok and cond_ok, rule + '/table-guard', f.construct(table), f"{table}[n, k] read only if n < shape[0] and k < shape[1]; otherwise {slow}(n, k)",
                   f"table read is not guarded by a strict bound check against {table}.shape, or the fall-back is not {slow}(n, k)", f.where())
         # fill loop at module level
         filled = False
@@ -59,7 +59,7 @@ def rule_tables(ctx):
                             if isinstance(st, ast.Assign) and ast.unparse(st.targets[0]) == f"{table}[{ast.unparse(node.target)}, {ast.unparse(inner.target)}]" \
                                     and ast.unparse(st.value) == f"{slow}({ast.unparse(node.target)}, {ast.unparse(inner.target)})":
                                 filled = True
-        ctx.check(filled, 'R11.2/table-fill', f.construct(table + ' fill'), f"table filled over its whole shape with {slow}",
+        ctx.check(filled, rule + '/table-fill', f.construct(table + ' fill'), f"table filled over its whole shape with {slow}",
                   f"{table} is not filled over its full shape by {slow} (the fall-back used beyond the table)", f.where())
 
 
